@@ -11,9 +11,10 @@ def cbl01(g):
 
 
 def cparams(p, stream):
-    return "(mkparams %s %s %s %s %s %s %s)" % (
+    return "(mkparams %s %s %s %s %s %s %s %s %s)" % (
         cnat(p["tournsize"]), cpair(cz(p["cxpb"][0]), cz(p["cxpb"][1])), cpair(cz(p["mutpb"][0]), cz(p["mutpb"][1])),
-        cpair(cz(p["indpb"][0]), cz(p["indpb"][1])), czl(p["weights"]), cz(p["evkind"]), czl(stream))
+        cpair(cz(p["indpb"][0]), cz(p["indpb"][1])), czl(p["weights"]), cz(p["evkind"]), cnat(p["lambda_"]), cnat(p["mu"]),
+        czl(stream))
 
 
 def czll(ll):
@@ -39,9 +40,22 @@ def gen_config(rng, i):
     p = {"tournsize": rng.choice([1, 2, 2, 3]), "cxpb": rng.choice(dy), "mutpb": rng.choice(dy),
          "indpb": rng.choice(dy), "weights": weights, "evkind": evkind, "hofsize": rng.choice([1, 2, 3, 5]),
          "pop0": pop0}
+    # loop shape: 0 = eaSimple generation, 1 = (mu+lambda), 2 = (mu,lambda) with algorithms.varOr
+    p["loop"] = (0, 1, 2)[i % 3] if rng.random() < 0.8 else rng.choice([0, 1, 2])
+    p["mu"] = rng.randint(2, 6)
+    p["lambda_"] = p["mu"] + rng.randint(0, 4)
+    if p["loop"]:
+        # varOr requires cxpb + mutpb <= 1 and samples two distinct parents
+        pairs = [(a, b) for a in dy for b in dy if a[0] * b[1] + b[0] * a[1] <= a[1] * b[1]]
+        p["cxpb"], p["mutpb"] = rng.choice(pairs)
+        while len(p["pop0"]) < 2:
+            p["pop0"].append([rng.randint(0, 1) for _ in range(L)])
+        n = max(len(p["pop0"]), p["mu"], p["lambda_"])
     ngen = rng.choice([1, 2, 3, 4, 5])
     # fixed corners, always present: single individual; genome of length 2 with certain crossover; certain mutation of
     # every gene; nothing ever varies (all offspring stay valid: zero evaluation tasks); hall of fame of one
+    if i < 4:
+        p["loop"] = 0
     if i == 0:
         p.update(pop0=[[1, 0, 1]], tournsize=3, hofsize=1)
         n, L = 1, 3
@@ -52,7 +66,7 @@ def gen_config(rng, i):
         p.update(mutpb=(1, 1), indpb=(1, 1), cxpb=(0, 1))
     elif i == 3:
         p.update(mutpb=(0, 1), cxpb=(0, 1), hofsize=1)
-    need = (ngen + 1) * (n * p["tournsize"] + 2 * n + n * (L + 1)) + 16
+    need = (ngen + 1) * (n * p["tournsize"] + 2 * n + n * (L + 5)) + 16
     stream = []
     for _ in range(need):
         m = rng.random()
@@ -80,7 +94,7 @@ def model_part(run, jobs):
         e["save"] = {k: jobs.submit(dict(base, mode="save", k=k, protocols=[e["protocol"][k]], ckpt=ck))
                      for k in range(ngen + 1)}
         w = rng.randint(1, 8)
-        e["sched"] = {"workers": w, "pool_kind": rng.choice(["mp", "cf", "mp_imap"]), "delay_seed": rng.randrange(10 ** 6)}
+        e["sched"] = {"workers": w, "pool_kind": rng.choice(["mp", "cf", "mp_imap", "mp_spawn"]), "delay_seed": rng.randrange(10 ** 6)}
         e["pool"] = jobs.submit(dict(base, mode="pool", **e["sched"]))
         plan.append(e)
 
@@ -102,7 +116,7 @@ def model_part(run, jobs):
         p, ngen, stream = e["p"], e["ngen"], e["stream"]
         P = cparams(p, stream)
         pop0 = clist([cbl01(g) for g in p["pop0"]])
-        head = "%s %s %s %s" % (P, pop0, cz(p["hofsize"]), cnat(ngen))
+        head = "%s %s %s %s %s" % (P, pop0, cz(p["hofsize"]), cz(p["loop"]), cnat(ngen))
         small = {"params": {k: v for k, v in p.items()}, "ngen": ngen, "stream_len": len(stream)}
         full = e["full"].result()
         if not good(full, "full", small):
